@@ -22,7 +22,8 @@ DISPLAY = "<model::field::RustFieldType as std::fmt::Display>::fmt"
 FLATTENERS = ("complex::ComplexProps as model::TryFromNode<'n>>::try_from_node", "complex::read_complex_content_node",
               "complex::read_sequence_node", "complex::import_sequence_node_fields", "complex::import_choice_fields",
               "complex::import_extension_fields")
-BAD_VEC_OPS = {"insert", "sort", "sort_by", "sort_by_key", "sort_unstable", "reverse", "dedup", "dedup_by", "dedup_by_key",
+BAD_VEC_OPS = {"insert", "sort", "sort_by", "sort_by_key", "sort_unstable", "sort_unstable_by", "sort_unstable_by_key", "sort_by_cached_key",
+               "select_nth_unstable", "select_nth_unstable_by", "select_nth_unstable_by_key", "reverse", "dedup", "dedup_by", "dedup_by_key",
                "retain", "truncate", "swap", "remove", "pop", "clear", "drain", "swap_remove", "split_off", "rotate_left",
                "rotate_right"}
 REORDERING = ("partition", "partition_in_place", "rev", "sorted", "sorted_by", "sorted_by_key", "group_by", "chunk_by", "unzip", "max_by_key", "min_by_key")
@@ -202,6 +203,7 @@ def run(ck, F):
     rule_dispatch(ck, F, X)
     rule_emission(ck, F, X)
     rule_merge_keeps_components(ck, F)
+    rule_every_schema_read(ck, F)
     rule_imports_followed(ck, F)
     rule_naming(ck, F, X)
 
@@ -433,6 +435,26 @@ def rule_traversal(ck, F, X):
                     continue   # `v.clear(); v.extend(base.fields.iter().cloned())` is `v.clone_from(&base.fields)`
                 if "Vec<model::field::Field>" in rty:
                     ck.violation("R3", f"{short}:vec-op:{x['name']}", Hh.sp(x), f"{short}: the field list is modified with `{x['name']}`: declaration order/content is not preserved", fn=short)
+    # the member list of a converted type is not rearranged afterwards either, wherever that would be done (the conversion of the
+    # enclosing node, the merge of documents, the writer): any function of the library outside the readers above
+    for b in F.lib.bodies:
+        if b["path"] in roles or b.get("hir") is None or "yaserde_tests" in b["path"] or "::tests::" in b["path"] or "helpers_content" in b["path"]:
+            continue
+        try:
+            nb = Hh.norm_body(b)
+        except og.Unrecognised:
+            continue
+        for x in Hh.exprs(nb["value"]):
+            if x.get("k") == "MethodCall" and x["name"] in BAD_VEC_OPS:
+                r0 = Hh.strip(x["recv"])
+                rty = (r0.get("adj_ty") or "") + " " + (r0.get("ty") or "")
+                if "Vec<model::field::Field>" in rty or "[model::field::Field]" in rty:
+                    if x["name"] == "clear" and _clear_then_refill(nb, x):
+                        continue
+                    short = b["path"].rsplit("::", 1)[-1] if not b["path"].startswith("<") else b["path"].split(" as ")[0].rsplit("::", 1)[-1] + "::" + b["path"].rsplit("::", 1)[-1]
+                    ck.violation("R3", f"elsewhere:vec-op:{x['name']}", Hh.sp(x),
+                                 f"{short}: a list of members (Vec<Field>) is modified with `{x['name']}` after it was read: the declaration order / content "
+                                 f"of the schema is not preserved", fn=short)
     ck.floor("R3", "child loops in the flattening functions", n_loops, 2)
 
 
@@ -684,6 +706,86 @@ def rule_emission(ck, F, X):
             ck.ok("R5", "read_xsd-push-once", Hh.sp(pushes[0]), f"{short}: one push per successfully converted child, loop runs to exhaustion")
         else:
             ck.violation("R5", "read_xsd-push-once", b["span"], f"{short}: {len(pushes)} pushes in {len(loops)} loops, early exits: {[e[0] for e in exits]}")
+
+
+SINGLE_PICK = ("find", "iter::find", "next", "nth", "last", "next_back", "find_map", "iter::find_map", "min_by_key", "max_by_key", "first", "position")
+
+
+def schema_readers(F):
+    """the functions (reachable from the public API) that push converted components onto a document's `nodes`: the readers of one
+    `schema` element"""
+    live = scans.api_reachable(F.lib)
+    out = []
+    for b in F.lib.bodies:
+        if b.get("hir") is None or b.get("closure") or b["path"] not in live or "tests::" in b["path"] or "yaserde_tests" in b["path"]:
+            continue
+        nb = Hh.norm_body(b)
+        if any(x.get("k") == "MethodCall" and x["name"] == "push" and Hh.describe(x["recv"]).endswith("nodes")
+               and "RustNode" in ((Hh.strip(x["recv"]).get("adj_ty") or "") + (Hh.strip(x["recv"]).get("ty") or "")) for x in Hh.exprs(nb["value"])):
+            out.append(b["path"])
+    return out
+
+
+def schema_reader_calls(F):
+    """[(caller, call node, normal form of the XML node handed over, context)] for every call of a schema reader (and of a function
+    that hands its own node parameter on to one) outside the readers themselves"""
+    readers = set(schema_readers(F))
+    # functions that pass their own node parameter to a reader are readers of that node as well (`read(node)` -> `read_xsd(node)`)
+    W = og.EnvWalker(F)
+    sites = []
+    for _ in range(3):
+        grew = False
+        sites = []
+        for b in F.lib.bodies:
+            if b.get("hir") is None or b.get("closure") or "tests::" in b["path"] or "yaserde_tests" in b["path"]:
+                continue
+
+            def cb(e, env, ctx, caller=b["path"]):
+                if e.get("k") not in ("Call", "MethodCall") or Hh.callee_path(e) not in readers:
+                    return
+                args = ([e["recv"]] if e.get("k") == "MethodCall" else []) + list(e["args"])
+                for a in args:
+                    a0 = Hh.strip(a)
+                    if "roxmltree::Node<" in (a0.get("ty") or "") + (a0.get("adj_ty") or ""):
+                        sites.append((caller, e, W.NF.nf(a, env), ctx))
+                        break
+            try:
+                W.walk_fn(b["path"], cb)
+            except og.Unrecognised:
+                continue
+        for caller, e, nf, ctx in sites:
+            if caller not in readers and isinstance(nf, tuple) and nf[0] == "param":
+                readers.add(caller)
+                grew = True
+        if not grew:
+            break
+    return readers, [s_ for s_ in sites if s_[0] not in readers or not (isinstance(s_[2], tuple) and s_[2][0] == "param")]
+
+
+def rule_every_schema_read(ck, F):
+    """A WSDL `types` section holds any number of `schema` elements (one per namespace is usual): each of them is read. A reader that
+    picks one child (`find`, `next`, ..) and reads only that drops every type of the other schemas. Decided at the calls of the schema
+    readers: the node handed over is the caller's own node, or it ranges over the children (a loop / iterator), never a single pick."""
+    CE = og.CallExpander(F)
+    readers, sites = schema_reader_calls(F)
+    n = 0
+    for caller, e, nf, ctx in sites:
+        v = CE.expand(nf)
+        names, root = og.spine(v)
+        short = caller.rsplit("::", 1)[-1]
+        over_children = any(c[0] == "star" and "children" in og.nf_str(c[1]) for c in ctx)
+        if "children" not in names and not over_children:
+            continue      # not a child selection (the root element of a file, a looked-up node)
+        n += 1
+        picked = [x for x in names if x in SINGLE_PICK]
+        if picked and not (isinstance(root, tuple) and root[0] == "elem" and over_children):
+            ck.violation("R5", f"every-schema:{short}", Hh.sp(e),
+                         f"{short} reads one child only (selected with `{picked[0]}`) as the schema: further `schema` elements of the same parent "
+                         f"(a WSDL `types` section has one per namespace) are never read and none of their types is emitted", fn=short)
+        else:
+            ck.ok("R5", f"every-schema:{short}", Hh.sp(e), f"{short}: the schema reader is applied to every selected child", fn=short)
+    ck.count("R5:schema reader calls on child elements", n)
+    ck.floor("R5", "schema readers", len(readers), 1)
 
 
 def rule_merge_keeps_components(ck, F):
